@@ -201,9 +201,9 @@ Proof.
   - destruct (on_rx cfg s0 from bc bytes d) as [s1 o1] eqn:E1.
     destruct (advance 64 cfg s1 (s_now s1 + settle_ms)) as [s2 o2] eqn:E2. inv_pair H.
     apply on_rx_good in E1; [|exact Hg0]. destruct E1 as [X|Hg1]; [left; apply in_or_app; left; exact X|].
-    apply fuel_app. eapply advance_good; eauto.
+    apply fuel_app. eapply advance_good; [exact Hg1|exact E2].
   - destruct (advance 4096 cfg s0 (s_now s0 + ms)) as [sa oa] eqn:Ea. inv_pair H.
-    eapply advance_good; eauto.
+    eapply advance_good; [exact Hg0|exact Ea].
   - change (s_control s0) with (s_control s) in H.
     assert (Hfirst : exists s1 o1 o2, (In OOutOfFuel o1 \/ good s1) /\
                        advance 64 cfg s1 (s_now s1 + settle_ms) = (s', o2) /\ o = o1 ++ o2).
@@ -217,7 +217,7 @@ Proof.
       - destruct (advance 64 cfg (upd_notify s0 true) (s_now (upd_notify s0 true) + settle_ms)) as [s2 o2] eqn:E2.
         inv_pair H. exists (upd_notify s0 true), []. eexists. split; [right; exact Hg|]. split; [exact E2|reflexivity]. }
     destruct Hfirst as (s1 & o1 & o2 & [X|Hg1] & E2 & ->); [left; apply in_or_app; left; exact X|].
-    apply fuel_app. eapply advance_good; eauto.
+    apply fuel_app. eapply advance_good; [exact Hg1|exact E2].
   - cbv beta iota in H. inv_pair H. right. exact Hg.
   - cbv beta iota in H. inv_pair H. right. exact Hg.
   - set (s1 := upd_pending (upd_control (session_reset s0) CIdle) None) in H.
@@ -226,7 +226,7 @@ Proof.
     apply (fuel_app [_; _]).
     apply idle_loop_good in E2; [|reflexivity|left; reflexivity].
     destruct E2 as [X|Hg2]; [left; apply in_or_app; left; exact X|].
-    apply fuel_app. eapply advance_good; eauto.
+    apply fuel_app. eapply advance_good; [exact Hg2|exact E3].
 Qed.
 
 Theorem ostart_good : forall cfg sel op iin a s' o,
